@@ -11,8 +11,8 @@ Import ListNotations.
 Open Scope string_scope.
 Open Scope list_scope.
 
-Theorem C14_discovered_files_exact_partial : forall gm content fs origin watches explicit excludes f,
-  In f (from_origin gm content fs origin watches explicit excludes) ->
+Theorem C14_discovered_files_exact_partial : forall gm content hard fs origin watches explicit excludes f,
+  In f (from_origin gm content hard fs origin watches explicit excludes) ->
   (exists p, In p explicit /\ f = mkDf p (Some origin) None) \/
   (exists e, excludes = Some e /\ find_file fs e = true /\ f = mkDf e None (Some PT_Git)) \/
   (exists name t, In (name, t) origin_files /\ find_file fs (join origin name) = true /\
@@ -40,22 +40,38 @@ Example C14_example :
              ("/o/test/sub/.hgignore", KFile false); ("/o/.git", KDir); ("/o/.git/.gitignore", KFile true);
              ("/o/tests/.git", KDir); ("/o/tests/.git/.gitignore", KFile true)] in
   let content := fun p : string => if String.eqb p "/o/.gitignore" then ["test/"] else ["x"] in
-  map show_dfile (from_origin gm_glob content fs "/o" [] [] None)
+  map show_dfile (from_origin gm_glob content true fs "/o" [] [] None)
   = ["/o/.gitignore|/o|Git"; "/o/tests/.gitignore|/o/tests|Git"].
 Proof. vm_compute. reflexivity. Qed.
 
 (* pruning is permanent: from any state of the walk, nothing is returned later from a skipped directory or below it *)
-Theorem C14_pruned_stays_out : forall gm content fs base watches,
+Theorem C14_pruned_stays_out : forall gm content hard fs base watches,
   (forall e, In e fs -> absolute (fst e)) ->
   forall n t, PInv t ->
-  forall f, In f (t_files (run gm content n fs base watches t)) ->
+  forall f, In f (t_files (run gm content hard n fs base watches t)) ->
   In f (t_files t) \/ exists d, d_in f = Some d /\ forall p, In p (t_skip t) -> is_under p d = false.
 Proof. exact pruned_stays_out. Qed.
 Print Assumptions C14_pruned_stays_out.
 
 (* ... and every state the walk of from_origin reaches is such a state *)
-Theorem C14_walk_states_have_the_invariant : forall gm content fs base watches,
+Theorem C14_walk_states_have_the_invariant : forall gm content hard fs base watches,
   (forall e, In e fs -> absolute (fst e)) -> absolute base ->
-  forall n filt files, PInv (run gm content n fs base watches (mkT [base] [] filt files)).
-Proof. intros gm content fs base watches Hfs Hb n filt files. apply run_pinv; [exact Hfs | apply init_pinv; exact Hb]. Qed.
+  forall n filt files, PInv (run gm content hard n fs base watches (mkT [base] [] filt files)).
+Proof. intros gm content hard fs base watches Hfs Hb n filt files. apply run_pinv; [exact Hfs | apply init_pinv; exact Hb]. Qed.
 Print Assumptions C14_walk_states_have_the_invariant.
+
+(* VCS metadata directories (repaired code): the walk never puts one on its stack, so no returned file lives in one, whatever
+   the ignore files say -- in particular whatever negated patterns on parent directories say *)
+Theorem C14_vcs_dirs_never_entered : forall gm content fs base watches n t,
+  NV base t ->
+  forall f, In f (t_files (run gm content true n fs base watches t)) ->
+  In f (t_files t) \/ exists d, d_in f = Some d /\ (d = base \/ vcs_dir d = false).
+Proof. exact vcs_dirs_never_entered. Qed.
+Print Assumptions C14_vcs_dirs_never_entered.
+
+(* as pinned, a negated pattern on a parent directory re-included the VCS directory *)
+Theorem C14_vcs_dir_entered_refuted :
+  map show_dfile (from_origin gm_glob wcontent false wfs "/o" [] [] None) = ["/o/test2/.gitignore|/o/test2|Git"; "/o/test2/test/.hg/.ignore|/o/test2/test/.hg|-"] /\
+  map show_dfile (from_origin gm_glob wcontent true wfs "/o" [] [] None) = ["/o/test2/.gitignore|/o/test2|Git"].
+Proof. exact vcs_dir_entered_refuted. Qed.
+Print Assumptions C14_vcs_dir_entered_refuted.
